@@ -16,7 +16,7 @@ def _bank(top, core, datamap=None):
     2 = read.  `datamap(reg, data)` optionally spreads a compact data value over the 32-bit word."""
     bank = csr_bus.CSRBank(core.get_csrs(), address=0, bus=csr_bus.Interface(data_width=32, address_width=14))
     top.submodules += bank
-    op, reg, data = Signal(2), Signal(4), Signal(16)
+    op, reg, data = Signal(2), Signal(4), Signal(32)
     top.comb += [bank.bus.adr.eq(reg), bank.bus.we.eq(op == 1), bank.bus.re.eq(op == 2)]
     if datamap is None:
         top.comb += bank.bus.dat_w.eq(data)
@@ -538,7 +538,6 @@ def spim_configs(tier):
                 "scen": "%s/%s/%s/%d/%d" % (list(lens), len(words), [list(x) for x in csopts], overlap, idle)}
         c.add(spec, kind="spim", dw=dw, mode=mode, loop=loop, idle=idle, lens=list(lens), words=list(words),
               csopts=[list(x) for x in csopts], overlap=overlap, pu=pu, **kw)
-    spim(2, lens=(2,), words=(0b1010,), overlap=0, pu=1, canary=1, wit=["transfer completed"])
     WB = ["transfer completed", "back-to-back start", "mixed miso bits read back"]
     X3 = (0b101, 0b011, 0b100)
     # known findings, judged on tiny scenarios: cs_n low in the first cycle; a start with another length
@@ -572,7 +571,6 @@ def spim_configs(tier):
 def spis_configs(tier):
     c = _Cfgs()
     q = tier == "quick"
-    import os
 
     def spis(h, gap, dw=4, lens=(1, 2, 3, 4), words=(0b1010, 0b0110, 0b1111), txws=(0b1001, 0b0110), **kw):
         c.add({"core": "spis", "dw": dw, "h": h, "gap": gap, "scen": "%s/%d/%d" % (list(lens), len(words), len(txws))},
@@ -593,7 +591,6 @@ def spis_configs(tier):
 def i2c_configs(tier):
     c = _Cfgs()
     q = tier == "quick"
-    import os
     ALLC = ["start", "stop", "write", "read"]
 
     def i2c(load, cmds=ALLC, bytes_=(0xa5, 0x00), sbytes=(0x5a, 0xff), early=0, **kw):
@@ -616,7 +613,7 @@ def i2c_configs(tier):
 class TimersHint:
     """the Timers environments have no hold rules except PWM's one-field-per-cycle rule"""
     def init(self, cfg):
-        return (0, 0, 0, 1) if cfg["kind"] == "pwm" else None
+        return (0, 0, 0, 1) if cfg["kind"] == "pwm" else 0 if cfg["kind"] == "wait" else None
 
     def allowed(self, cfg, ctx, iv):
         if cfg["kind"] == "pwm":
@@ -624,6 +621,8 @@ class TimersHint:
         return True
 
     def next(self, cfg, ctx, iv, o):
+        if cfg["kind"] == "wait":
+            return ctx + 1              # cycle number (the T-mode driver drops `wait` at fixed cycles)
         return tuple(iv) if cfg["kind"] == "pwm" else None
 
 
@@ -652,7 +651,7 @@ def tmode_configs(tier):
         regs=[2, 3, 6, 7], period=0)
     add("timers", 2500, {"core": "wdt", "w": 30, "rd": 50, "halt": 1}, kind="wdt", w=30, rd=50, halt=1, vals=[400, 90, 2**30 - 1],
         ctl=[1, 2, 3, 6, 7, 10, 11, 14, 15], strict=0)
-    add("timers", 3000, {"core": "wait", "t": 1000}, kind="wait", t=1000)
+    add("timers", 3200, {"core": "wait", "t": 1000}, kind="wait", t=1000)
     add("timers", 600, {"core": "tline", "ev": [0, 7, 19, 100]}, kind="tline", ev=[0, 7, 19, 100])
     add("timers", 1500, {"core": "pwm"}, kind="pwm", pmax=40, wmax=45)
     # SPI: 16-bit words, divider 10 / 7
@@ -680,8 +679,9 @@ def tmode_candidates(cfg, ctx, rnd):
             return [(1, ctx)]
         return [(1, rnd.choice(cfg["bytes"]))] if rnd.random() < 0.7 else [(0, 0)]
     if k == "rx":
-        ncodes = len(cfg["bytes"]) * 2 * len(cfg["phis"])
-        start = (0, rnd.randint(1, ncodes))
+        nb = len(cfg["bytes"])
+        stop = 0 if rnd.random() < 0.25 else 1                 # one frame in four with a broken stop bit
+        start = (0, 1 + rnd.randrange(nb) + nb * (stop + 2 * rnd.randrange(len(cfg["phis"]))))
         t = ctx[0]
         if t is not None and t[1] + 1 < len(t[0]):
             return [(t[0][t[1] + 1], 0)]
@@ -701,7 +701,8 @@ def tmode_candidates(cfg, ctx, rnd):
         val = rnd.choice(cfg["ctl"]) if reg == 0 else rnd.choice(cfg["vals"]) if reg == 1 else 1 if reg == 4 else rnd.randint(0, 1)
         return [(1, reg, val, h)]
     if k == "wait":
-        return [(0,)] if rnd.random() < 0.002 else [(1,)]
+        t = cfg["t"]
+        return [(0,)] if ctx in (2, 2 + t // 2, 2 + t // 2 + 2 * t) else [(1,)]
     if k == "tline":
         return [(1,)] if rnd.random() < 0.05 else [(0,)]
     if k == "pwm":
